@@ -254,8 +254,8 @@ def gen_leaves(ctx):
         names = ['%s|r%d' % (ens, i + 1) for i in range(nrep)] if (nrep > 1 or rng.random() < 0.6) else [ens]
         base = {}
         for n in names:
-            ln = rng.randint(8, 30)
-            base[n] = list(gen_idl(rng, ln, rng.choice(['contig', 'strided', 'irregular', 'gapped'])))
+            ln = rng.randint(8, 36)
+            base[n] = list(gen_idl(rng, ln, rng.choice(['contig', 'contig', 'strided', 'irregular', 'gapped', 'deceptive'])))
         layout[ens] = base
     mode = rng.choice(['same', 'sameidl_subsets', 'samereps_diffidl', 'free'])
     nleaves = rng.randint(2, 4)
@@ -272,7 +272,10 @@ def gen_leaves(ctx):
             for n in names:
                 il = layout[e][n]
                 if mode in ('samereps_diffidl', 'free'):
-                    k = rng.choice(['all', 'prefix', 'stride', 'random', 'shifted'])
+                    k = rng.choice(['all', 'prefix', 'stride', 'random', 'shifted', 'head', 'tail'])
+                    if k in ('head', 'tail') and len(il) >= 15:
+                        # pieces of the chain separated by a stretch nobody measured
+                        il = il[:len(il) // 3] if k == 'head' else il[-(len(il) // 3):]
                     if k == 'prefix':
                         il = il[:max(5, len(il) * 2 // 3)]
                     elif k == 'stride':
@@ -539,6 +542,46 @@ def check_case(ctx, case):
                     ([] if close(float(part.value), float(ref.value), rtol=1e-9) else ['value'])
                 if d:
                     probs.append(('violation', 'cobs-' + nm, d[:3]))
+        # complex powers: x ** c = exp(c Log x) on the principal branch (arg = pi for a negative base), derivative c x**(c-1)
+        import cmath
+        for base, tag in ((a, 'pos'), (-1 * a, 'neg')):
+            xv = float(base.value)
+            for cexp in (complex(0.75, -1.25), complex(-0.5, 0.3), complex(0.0, 2.0)):
+                try:
+                    got = base ** cexp
+                except Exception as e:
+                    probs.append(('violation', 'cobs-cpow-exception', repr(e)[:200]))
+                    continue
+                lg = complex(math.log(abs(xv)), 0.0 if xv > 0 else math.pi)
+                fv = cmath.exp(cexp * lg)
+                dv = cexp * fv / xv
+                if not isinstance(got, pe.CObs):
+                    probs.append(('violation', 'cobs-type-cpow', type(got).__name__))
+                    continue
+                for part, val, gr in ((got.real, fv.real, dv.real), (got.imag, fv.imag, dv.imag)):
+                    q = combine(lambda v, val=val: val, [gr], [Q.of(base)])
+                    d = [z_ for z_ in compare_q(part, q, rtol=1e-8) if not z_.startswith('r_value')]
+                    if d:
+                        probs.append(('violation', 'cobs-cpow-' + tag, ['exponent %r' % (cexp,)] + d[:3]))
+                        break
+        for cbase in (complex(0.75, -1.25), complex(-2.0, 0.5)):
+            try:
+                got = cbase ** a
+            except Exception as e:
+                probs.append(('violation', 'cobs-rcpow-exception', repr(e)[:200]))
+                continue
+            xv = float(a.value)
+            fv = cmath.exp(xv * cmath.log(cbase))
+            dv = cmath.log(cbase) * fv
+            if isinstance(got, pe.CObs):
+                for part, val, gr in ((got.real, fv.real, dv.real), (got.imag, fv.imag, dv.imag)):
+                    q = combine(lambda v, val=val: val, [gr], [Q.of(a)])
+                    d = [z_ for z_ in compare_q(part, q, rtol=1e-8) if not z_.startswith('r_value')]
+                    if d:
+                        probs.append(('violation', 'cobs-rcpow', ['base %r' % (cbase,)] + d[:3]))
+                        break
+            else:
+                probs.append(('violation', 'cobs-type-rcpow', type(got).__name__))
     return probs
 
 
